@@ -33,6 +33,13 @@ CheckStatus(e, post) ==
         THEN {} ELSE {"FailsOnlyAfterTheFundingDeadline"})
   \cup (IF \A d \in Range(post) : (d.status \in {RESOLVED, UNRESOLVED} /\ Has(disp, d.id) /\ ById(disp, d.id).status = VOTING) => ResultOf(d) # 0
         THEN {} ELSE {"LeavesVotingOnlyWithATally"})
+  \* a round that has been superseded by a further round is history: it is closed when the new round opens and neither
+  \* its status nor its vote changes again (the unresolved -> new round transition is not followed by a second way out)
+  \cup (IF \A d \in Range(post) :
+           (Has(disp, d.id) /\ \E x \in Range(disp) : x.hash = d.hash /\ x.id > d.id)
+             => LET p == ById(disp, d.id) IN
+                d.status = p.status /\ ~d.open /\ (("vote" \in DOMAIN d /\ "vote" \in DOMAIN p) => d.vote.executed = p.vote.executed)
+        THEN {} ELSE {"SupersededRoundIsClosedForGood"})
 
 \* the 1-, 2- and 3-day deadlines: a dispute waiting for its fee ends one day after it was opened; once voting starts the
 \* vote lasts two days and the dispute (room for further rounds) three days from that moment
